@@ -15,7 +15,7 @@ import numpy as np
 import odl
 from odl.set.space import LinearSpaceElement
 
-from .. import util
+from .. import cover, util
 
 SHARDS = {'quick': 4, 'thorough': 16}
 
@@ -556,6 +556,29 @@ def run_pspace(ctx):
                     ctx.violation('legacy2', 'pspace;' + family(uf), 'dtype', ufunc=nm, flavour=pn)
             except Exception as e:
                 ctx.violation('legacy2', cfg, 'raises:' + type(e).__name__, ufunc=nm, message=str(e)[:200])
+            # ... with out= (a separate NaN-filled element, the first operand itself, the second operand itself) and with a scalar
+            # second operand; only where the result type is the operands' type (comparisons produce booleans)
+            if uf(xs[0], ys[0]).dtype == xs[0].dtype:
+                for okind in ('separate', 'out-is-x', 'out-is-y', 'scalar;separate', 'scalar;out-is-x'):
+                    ctx.ev('differential')
+                    try:
+                        x_ = x.copy()
+                        y_ = y.copy() if not okind.startswith('scalar') else 1.5
+                        out = {'separate': None, 'out-is-x': x_, 'out-is-y': y_, 'scalar;separate': None, 'scalar;out-is-x': x_}[okind]
+                        if out is None:
+                            out = util.fill(p.element(), 'nan')
+                        r = getattr(x_.ufuncs, nm)(y_, out=out)
+                        refs = [uf(b, c) for b, c in zip(xs, ys)] if not okind.startswith('scalar') else [uf(b, 1.5) for b in xs]
+                        if r is not out:
+                            ctx.violation('legacy2:out', cfg, 'not-out', ufunc=nm, out=okind)
+                        if not all(same(a, b) for a, b in zip(leafs(out), refs)):
+                            ctx.violation('legacy2:out', cfg, 'out-not-written', ufunc=nm, out=okind)
+                        if okind in ('separate', 'out-is-y') and not all(same(a, b) for a, b in zip(leafs(x_), xs)):
+                            ctx.violation('legacy2:out', cfg, 'operand-modified', ufunc=nm, out=okind)
+                        if okind in ('separate', 'out-is-x') and not all(same(a, b) for a, b in zip(leafs(y_), ys)):
+                            ctx.violation('legacy2:out', cfg, 'operand-modified', ufunc=nm, out=okind)
+                    except Exception as e:
+                        ctx.violation('legacy2:out', cfg, 'raises:' + type(e).__name__, ufunc=nm, message=str(e)[:200], out=okind)
         # second operand that is not a member of the space: broadcast against the parts (scalar; for power spaces an
         # element of the base space - in the nested square case it has as many parts as the outer space)
         others = [('scalar', 2.5, lambda b: 2.5)]
@@ -797,6 +820,20 @@ def run(ctx):
                      'varies operand values; distinct = distinct (variant, space, ufunc); a case is '
                      'non-trivial whether NumPy accepts or rejects it (rejection must be mirrored)' % len(UFUNCS))
     ctx.note('ufuncs', len(UFUNCS))
+    import odl.util.ufuncs as _uf, odl.util.utility as _ut
+    from odl.space.base_tensors import Tensor as _T
+    from odl.space.npy_tensors import NumpyTensor as _NT
+    from odl.discr.discr_space import DiscretizedSpaceElement as _DE
+    cov = cover.Cover()
+    for c_ in (_T, _NT, _DE):
+        cov.add(vars(c_).get('__array_ufunc__'), c_.__name__ + '.__array_ufunc__')
+        cov.add(vars(c_).get('__array_wrap__'), c_.__name__ + '.__array_wrap__')
+    for c_ in (_uf.TensorSpaceUfuncs, _uf.ProductSpaceUfuncs):
+        cov.add(c_)
+    cov.add(getattr(_uf, 'wrap_ufunc_base', None), 'wrap_ufunc_base')
+    cov.add(getattr(_uf, 'wrap_ufunc_productspace', None), 'wrap_ufunc_productspace')
+    cov.add(_ut.writable_array, 'writable_array')
+    cov.arm()
     run_ufuncs(ctx)
     if ctx.shard == 0:
         run_reductions_legacy(ctx)
@@ -805,6 +842,7 @@ def run(ctx):
         run_memory(ctx)
         if ctx.thorough and ctx.round == 0:
             run_ambient(ctx)
+    cover.report_to(ctx, cov)
     ctx.ev('memory', 0 if ctx.shard else 0)
     if ctx.shard != 0:
         ctx.monitors.pop('memory', None)
